@@ -195,7 +195,7 @@ def load(inf, lazy=False):
                     im = (im-im.min())*(smax-smin)/(im.max()-im.min())+smin
                 im.attrs = unpack_attrs(meta)
                 return im
-        except KeyError or TypeError:
+        except (KeyError, TypeError, yaml.YAMLError):
             raise NoMetadata
     else:
         raise NoMetadata
@@ -243,7 +243,9 @@ def load_image(inf, spacing=None, medium_index=None, illum_wavelen=None,
             if isinstance(yaml.safe_load(pi.tag[270][0]), dict):
                 warnings.warn(
                     "Metadata detected but ignored. Use hp.load to read it.")
-        except (AttributeError, KeyError):
+        except (AttributeError, KeyError, yaml.YAMLError):
+            # no description, or one that is not HoloPy's (free text written
+            # by acquisition software need not be valid yaml)
             pass
 
     extra_dims = None
